@@ -495,6 +495,11 @@ theorem g96_fit_of_lt (d : Dec) (hp : d.neg = false → d.mag < 10 ^ 14) (hn : d
 
 example : G96Ok exRaw exXyz exVel exBox := Infretis.Codec.exG96_ok
 
+/-- the widest numbers that still fit a 15-column field: 99999.999999999 and -9999.999999999 -/
+example : Fit ⟨false, 99999999999999⟩ ∧ Fit ⟨true, 9999999999999⟩ :=
+  ⟨Infretis.Codec.fit_of_lt _ (fun _ => by decide) (fun h => by cases h),
+   Infretis.Codec.fit_of_lt _ (fun h => by cases h) (fun _ => by decide)⟩
+
 /-- the box guard is necessary: BOX is read by white-space split, so a 15-column box field
     without a leading blank merges with its neighbour → ValueError (positions are read by columns) -/
 theorem g96_roundtrip_wide_box_counterexample :
